@@ -395,8 +395,29 @@ def family_rules(draw, idx, ctx):
                                           ('call', 'Tval', [('ref', x)], []),
                                           ('apply', ('rx', '[ab]'), ('py', 'lambda v: (v, %s)' % x))]))
     name = 'F%d' % idx
-    fam = draw(st.integers(0, 14))
+    fam = draw(st.integers(0, 16))
     x = draw(st.sampled_from(['x', 'y', 'n']))
+    if fam >= 15:
+        # the same name re-bound to depth 3-4, each level used again after the level inside it is
+        # done (matched or not): every let gives back exactly the binding it found
+        def nest(d):
+            if d == 0:
+                return use(x)
+            inner = ('let', x, t(), nest(d - 1))
+            w = draw(st.integers(0, 4))
+            if w == 0:
+                inner = ('opt', inner)
+            elif w == 1:
+                inner = ('rep', inner, 0, 2)
+            elif w == 2:
+                inner = ('choice', [('seq', [inner, ('lit', '2')]), inner, ('lit', '1')])
+            elif w == 3:
+                inner = ('opt', ('expect', inner))
+            return ('seq', [inner, use(x)])
+        d = draw(st.integers(2, 3))
+        if fam == 15:
+            return [('rule', name, None, ('let', x, t(), nest(d)))]
+        return [('class', name, None, [('field', x, t()), ('field', 'inner', nest(d)), ('field', 'seen', use(x))])]
     if fam >= 13:
         # a class whose `let` (omitted) or plain member is used inside compound arguments of the
         # members that follow: symbolic count, inline Python, nested call, keyword argument
